@@ -417,6 +417,155 @@ func ExplicitReturns(m *Module) {
 	}
 }
 
+// SimplifyTypeSwitches rewrites, on the loaded trees, every type switch that binds a variable and has exactly one
+// single-type clause and a default clause
+//
+//	switch e := x.(type) { case T: A; default: B }
+//
+// into the comma-ok form it is equivalent to
+//
+//	if e, ok := x.(T); ok { A } else { e := x; B }
+//
+// (x a plain identifier, no `break` out of the switch): rules then see one spelling of "is it a T?".  It returns the
+// number of switches rewritten.
+func SimplifyTypeSwitches(m *Module) int {
+	count := 0
+	for _, p := range m.Roots {
+		info := p.TypesInfo
+		for _, file := range p.Syntax {
+			var cands []*ast.TypeSwitchStmt
+			ast.Inspect(file, func(n ast.Node) bool {
+				ts, ok := n.(*ast.TypeSwitchStmt)
+				if !ok || ts.Init != nil || len(ts.Body.List) != 2 {
+					return true
+				}
+				as, ok := ts.Assign.(*ast.AssignStmt)
+				if !ok || len(as.Lhs) != 1 || len(as.Rhs) != 1 {
+					return true
+				}
+				ta, ok := unparen(as.Rhs[0]).(*ast.TypeAssertExpr)
+				if !ok || ta.Type != nil {
+					return true
+				}
+				if _, isId := unparen(ta.X).(*ast.Ident); !isId {
+					return true
+				}
+				typed, deflt := 0, 0
+				for _, c := range ts.Body.List {
+					cc := c.(*ast.CaseClause)
+					switch {
+					case cc.List == nil:
+						deflt++
+					case len(cc.List) == 1:
+						if id, isId := unparen(cc.List[0]).(*ast.Ident); isId && id.Name == "nil" {
+							return true
+						}
+						typed++
+					}
+				}
+				if typed != 1 || deflt != 1 {
+					return true
+				}
+				// no break out of the switch
+				breaks := false
+				var scan func(n ast.Node)
+				scan = func(n ast.Node) {
+					ast.Inspect(n, func(y ast.Node) bool {
+						switch z := y.(type) {
+						case *ast.ForStmt, *ast.RangeStmt, *ast.SwitchStmt, *ast.TypeSwitchStmt, *ast.SelectStmt, *ast.FuncLit:
+							return false
+						case *ast.BranchStmt:
+							if z.Tok == token.BREAK && z.Label == nil {
+								breaks = true
+							}
+						}
+						return true
+					})
+				}
+				for _, c := range ts.Body.List {
+					for _, st := range c.(*ast.CaseClause).Body {
+						scan(st)
+					}
+				}
+				if !breaks {
+					cands = append(cands, ts)
+				}
+				return true
+			})
+			if len(cands) == 0 {
+				continue
+			}
+			// the SSA program is built from the trees as loaded
+			m.CallGraph()
+			isCand := map[*ast.TypeSwitchStmt]bool{}
+			for _, ts := range cands {
+				isCand[ts] = true
+			}
+			astutil.Apply(file, nil, func(c *astutil.Cursor) bool {
+				ts, ok := c.Node().(*ast.TypeSwitchStmt)
+				if !ok || !isCand[ts] {
+					return true
+				}
+				as := ts.Assign.(*ast.AssignStmt)
+				bound := as.Lhs[0].(*ast.Ident)
+				x := unparen(unparen(as.Rhs[0]).(*ast.TypeAssertExpr).X).(*ast.Ident)
+				xObj := info.Uses[x]
+				var typedC, defC *ast.CaseClause
+				for _, cl := range ts.Body.List {
+					cc := cl.(*ast.CaseClause)
+					if cc.List == nil {
+						defC = cc
+					} else {
+						typedC = cc
+					}
+				}
+				useX := func(pos token.Pos) *ast.Ident {
+					id := &ast.Ident{Name: x.Name, NamePos: pos}
+					if xObj != nil {
+						info.Uses[id] = xObj
+					}
+					if tv, ok := info.Types[x]; ok {
+						info.Types[id] = tv
+					}
+					return id
+				}
+				okVar := types.NewVar(ts.Pos(), p.Types, "ok", types.Typ[types.Bool])
+				okDef := &ast.Ident{Name: "ok", NamePos: ts.Pos()}
+				info.Defs[okDef] = okVar
+				okUse := &ast.Ident{Name: "ok", NamePos: ts.Pos()}
+				info.Uses[okUse] = okVar
+				info.Types[okUse] = types.TypeAndValue{Type: types.Typ[types.Bool]}
+				eDef := &ast.Ident{Name: bound.Name, NamePos: typedC.Pos()}
+				if o := info.Implicits[typedC]; o != nil {
+					info.Defs[eDef] = o
+				}
+				assert := &ast.TypeAssertExpr{X: useX(typedC.Pos()), Lparen: typedC.Pos(), Type: typedC.List[0], Rparen: typedC.Pos()}
+				if tv, ok := info.Types[typedC.List[0]]; ok {
+					info.Types[assert] = types.TypeAndValue{Type: tv.Type}
+				}
+				init := &ast.AssignStmt{Lhs: []ast.Expr{eDef, okDef}, Tok: token.DEFINE, TokPos: typedC.Pos(), Rhs: []ast.Expr{assert}}
+				eDef2 := &ast.Ident{Name: bound.Name, NamePos: defC.Pos()}
+				if o := info.Implicits[defC]; o != nil {
+					info.Defs[eDef2] = o
+				}
+				copyStmt := &ast.AssignStmt{Lhs: []ast.Expr{eDef2}, Tok: token.DEFINE, TokPos: defC.Pos(), Rhs: []ast.Expr{useX(defC.Pos())}}
+				elseBody := append([]ast.Stmt{copyStmt}, defC.Body...)
+				ifs := &ast.IfStmt{
+					If:   ts.Pos(),
+					Init: init,
+					Cond: okUse,
+					Body: &ast.BlockStmt{Lbrace: typedC.Colon, List: typedC.Body, Rbrace: ts.End()},
+					Else: &ast.BlockStmt{Lbrace: defC.Colon, List: elseBody, Rbrace: ts.End()},
+				}
+				c.Replace(ifs)
+				count++
+				return true
+			})
+		}
+	}
+	return count
+}
+
 // FoldNewHelpers performs helper folding on m (see above) and returns a description of what was folded.
 func FoldNewHelpers(m *Module) []string {
 	known := loadKnownFuncs()
@@ -441,6 +590,14 @@ func FoldNewHelpers(m *Module) []string {
 					continue
 				}
 				if f, ok := p.TypesInfo.Defs[fd.Name].(*types.Func); ok {
+					// a method with a value receiver works on a copy of its receiver; splicing its body into a caller that holds a
+					// pointer would make it work on the original.  That difference is the whole point when the receiver contains a
+					// lock or a wait group, so such methods are never folded (the rules see the copy being made).
+					if sig, _ := f.Type().(*types.Signature); sig != nil && sig.Recv() != nil {
+						if _, isPtr := sig.Recv().Type().(*types.Pointer); !isPtr && ContainsSyncByValue(sig.Recv().Type(), 0) {
+							continue
+						}
+					}
 					fo.fresh[f] = fd
 				}
 			}
@@ -935,6 +1092,32 @@ func FoldNewHelpers(m *Module) []string {
 		}
 	}
 	return log
+}
+
+// ContainsSyncByValue reports whether a value of type t contains (not through a pointer) one of sync's primitives.
+func ContainsSyncByValue(t types.Type, depth int) bool {
+	if depth > 4 {
+		return false
+	}
+	switch u := t.(type) {
+	case *types.Named:
+		if u.Obj().Pkg() != nil && u.Obj().Pkg().Path() == "sync" {
+			switch u.Obj().Name() {
+			case "WaitGroup", "Mutex", "RWMutex", "Once", "Cond", "Map", "Pool":
+				return true
+			}
+		}
+		return ContainsSyncByValue(u.Underlying(), depth+1)
+	case *types.Struct:
+		for i := 0; i < u.NumFields(); i++ {
+			if ContainsSyncByValue(u.Field(i).Type(), depth+1) {
+				return true
+			}
+		}
+	case *types.Array:
+		return ContainsSyncByValue(u.Elem(), depth+1)
+	}
+	return false
 }
 
 // respellTypes rewrites the unqualified type names in a rendered type: names in subst are replaced by their value, names
